@@ -1,4 +1,84 @@
 /- Proofs/Npz.lean — helper lemmas for Properties/C20.lean -/
 import Model.Npz
 namespace Sketchnu
+
+/-- a slice that lies inside a prefix is the same slice of the whole list -/
+theorem slice_take {α : Type} (f : List α) (L q m : Nat) (h : q + m ≤ L) :
+    ((f.take L).drop q).take m = (f.drop q).take m := by
+  rw [List.drop_take, List.take_take]
+  congr 1
+  omega
+
+theorem occursAt_iff (pat f : BytesL) (q : Nat) :
+    occursAt pat f q = true ↔ (f.drop q).take pat.length = pat ∧ q + pat.length ≤ f.length := by
+  simp [occursAt]
+
+/-- an occurrence in a suffix is an occurrence in the whole list, shifted -/
+theorem occursAt_drop (pat g : BytesL) (a s : Nat) (hp : 0 < pat.length)
+    (h : occursAt pat (g.drop a) s = true) :
+    occursAt pat g (a + s) = true := by
+  rw [occursAt_iff] at *
+  rw [List.drop_drop, List.length_drop] at h
+  exact ⟨h.1, by omega⟩
+
+/-- soundness of `rfindFrom` -/
+theorem rfindFrom_sound (pat f : BytesL) : ∀ n s, rfindFrom pat f n = some s → occursAt pat f s = true
+  | 0, s, h => by
+    unfold rfindFrom at h
+    split at h
+    · cases h; assumption
+    · cases h
+  | n + 1, s, h => by
+    unfold rfindFrom at h
+    split at h
+    · cases h; assumption
+    · exact rfindFrom_sound pat f n s h
+
+theorem rfind_sound (pat f : BytesL) (s : Nat) (h : rfind pat f = some s) : occursAt pat f s = true :=
+  rfindFrom_sound pat f _ s h
+
+/-- what `uniqueSig` says -/
+theorem uniqueSig_spec (f : BytesL) (hu : uniqueSig f = true) :
+    22 ≤ f.length ∧
+    (∀ q, occursAt sigEOCD f q = true → q = f.length - 22) ∧
+    occursAt sigEOCD f (f.length - 22) = true ∧
+    f.drop (f.length - 2) = [0, 0] := by
+  unfold uniqueSig at hu
+  simp only [Bool.and_eq_true, List.all_eq_true, List.mem_range,
+    Bool.or_eq_true, Bool.not_eq_true', beq_iff_eq, sizeEndCentDir] at hu
+  obtain ⟨⟨⟨h1, h2⟩, h3⟩, h4⟩ := hu
+  have h1 := of_decide_eq_true h1
+  refine ⟨h1, ?_, h3, h4⟩
+  intro q hq
+  have hb := ((occursAt_iff _ _ _).1 hq).2
+  have : sigEOCD.length = 4 := rfl
+  rcases h2 q (by omega) with h | h
+  · rw [hq] at h; cases h
+  · exact h
+
+/-- `np.load` dispatch on a strict prefix whose end-record search fails -/
+theorem npLoad_take_of_none (f : BytesL) (hstart : f.take 4 = sigLocal) (L : Nat) (hL : L < f.length)
+    (hnone : endRecData (f.take L) = none) :
+    npLoad (f.take L) = (if L = 0 then .eofError else if L < 4 then .valueError else .badZipFile) := by
+  by_cases h0 : L = 0
+  · subst h0; simp [npLoad]
+  · have hne : f.take L ≠ [] := by
+      intro h
+      have := congrArg List.length h
+      simp only [List.length_take, List.length_nil] at this
+      omega
+    by_cases h4 : L < 4
+    · have hlen : ∀ (k : Nat) (pat : BytesL), 4 ≤ k → pat.length = k → (f.take L).take k ≠ pat := by
+        intro k pat hk hp h
+        have := congrArg List.length h
+        simp only [List.length_take] at this
+        omega
+      have a1 := hlen 4 sigLocal (by omega) rfl
+      have a2 := hlen 4 sigEOCD (by omega) rfl
+      have a3 := hlen 6 npyMagic (by omega) rfl
+      simp [npLoad, hne, a1, a2, a3, h0, h4]
+    · have a1 : (f.take L).take 4 = sigLocal := by
+        rw [List.take_take, Nat.min_eq_left (by omega)]; exact hstart
+      simp [npLoad, hne, a1, hnone, h0, h4]
+
 end Sketchnu
